@@ -122,6 +122,96 @@ theorem C20_grow (kers : List Nat) (t : Basis) (d : Domain R) (hd : Good d) (p :
   rw [e] at h1
   exact ⟨h1, fun x => evalAt_append_zeros _ _ x⟩
 
+/-! ### the conversions the driver runs (`convertP`): padding in the layout of the object, coset shift kept by a no-op -/
+
+/-- `growP` does nothing to an object that already has the length of the domain -/
+theorem growP_full (p : Poly R) (m : Nat) (hl : p.coeffs.length = 2^m) : growP (2^m) p = p.coeffs := by
+  unfold growP
+  split
+  · have h1 : (flip p).length = 2^m := by rw [flip_eq p m hl]; simp [hl]
+    rw [grow_eq _ _ h1, flip_eq p m hl, Nat.log2_two_pow]
+    exact bitReverse_bitReverse m p.coeffs hl
+  · exact grow_eq _ _ hl
+
+/-- **`convertP` = the literal dispatch `convert` on every object that satisfies the precondition** (`Denotes`: stored
+    length = cardinality, a LagrangeCoset object lives on the coset of the domain it is converted with): all theorems
+    about `convert` (C20_toLagrange … C20_evaluate_invariant, and the tie to the Go dispatch in Props/C20_gen) are
+    theorems about what the driver runs -/
+theorem C20_convertP_agrees [DecidableEq R] (kers : List Nat) (t : Basis) (d : Domain R) (p : Poly R) (a : List R)
+    (h : Denotes d p a) : convertP kers t d p = convert kers t d p := by
+  have hl := h.length
+  have e : ({ p with coeffs := growP (2^d.m) p } : Poly R) = p := by rw [growP_full p d.m hl]
+  unfold convertP
+  rw [e]
+  cases hdis : dispatch t p.basis p.bitrev with
+  | some cl => rfl
+  | none =>
+    have ht := dispatch_none _ _ _ hdis
+    simp only
+    unfold convert
+    simp only [hdis]
+    by_cases hk : t = .lagrangeCoset
+    · have hc : p.coset = d.g := h.2.2 (ht ▸ hk)
+      simp [hk, hc]
+    · simp [hk]
+
+/-- **grow in BitReverse layout**: a Canonical/BitReverse object of length `2^k ≤` cardinality is padded in natural
+    order: after every conversion it denotes its own coefficient list followed by zeroes, and no value changes.
+    (The literal `grow` appends the zeroes to the bit-reversed vector, which denotes another polynomial: run on the real
+    code by the `obj` lines.) -/
+theorem C20_grow_bitreverse [DecidableEq R] (kers : List Nat) (t : Basis) (d : Domain R) (hd : Good d) (p : Poly R)
+    (hb : p.basis = .canonical) (hr : p.bitrev = true) :
+    Denotes d (convertP kers t d p) (grow (2^d.m) (regular p)) ∨ 2^d.m < p.coeffs.length := by
+  by_cases hl : p.coeffs.length ≤ 2^d.m
+  · left
+    have hfl : (flip p).length = p.coeffs.length := by simp [flip]
+    have hgl : (grow (2^d.m) (flip p)).length = 2^d.m := by simp [grow, hfl]; omega
+    have h0 : Denotes d { p with coeffs := growP (2^d.m) p } (grow (2^d.m) (flip p)) :=
+      ⟨hgl, by simp [growP, hb, hr, lay, vecOf, Nat.log2_two_pow], by simp [hb]⟩
+    have h1 := convert_denotes kers t d hd _ _ h0
+    have e : convertP kers t d p = convert kers t d { p with coeffs := growP (2^d.m) p } := by
+      unfold convertP
+      cases hdis : dispatch t p.basis p.bitrev with
+      | some cl => rfl
+      | none =>
+        have ht := dispatch_none _ _ _ hdis
+        simp only
+        unfold convert
+        simp only [hdis]
+        have hk : t ≠ .lagrangeCoset := by rw [ht, hb]; decide
+        simp [hk]
+    rw [e]
+    simpa [regular, hr] using h1
+  · right; omega
+
+/-- padding in natural order does not change any value -/
+theorem C20_grow_bitreverse_value (n : Nat) (p : Poly R) (x : R) :
+    evalAt (grow n (regular p)) x = evalAt (regular p) x := evalAt_append_zeros _ _ x
+
+/-- **a conversion that converts nothing changes nothing**: `ToLagrangeCoset` with ANY domain of the right size (any
+    coset shift) on an object that already is in LagrangeCoset form and knows its coset shift, `ToLagrange` on a Lagrange
+    object, `ToCanonical` on a Canonical object -/
+theorem C20_noop_conversion [DecidableEq R] (kers : List Nat) (t : Basis) (d : Domain R) (p : Poly R)
+    (hb : p.basis = t) (hl : p.coeffs.length = 2^d.m) (hc : t = .lagrangeCoset → p.coset ≠ 0) :
+    convertP kers t d p = p := by
+  have e : ({ p with coeffs := growP (2^d.m) p } : Poly R) = p := by rw [growP_full p d.m hl]
+  have hdis : dispatch t p.basis p.bitrev = none := by
+    rw [hb]; cases t <;> cases p.bitrev <;> rfl
+  unfold convertP
+  rw [e]
+  simp only [hdis]
+  unfold convert
+  simp only [hdis, grow_eq _ _ hl]
+  by_cases hk : t = .lagrangeCoset
+  · simp [hk, hc hk]
+  · simp [hk]
+
+example : (convertP [] .lagrangeCoset (exD true) (⟨[1, 2, 3, 4], .lagrangeCoset, false, 0, 4, 3⟩ : Poly (ZMod 5))).coset = 3
+    ∧ (convertP [] .lagrangeCoset (exD true) (⟨[1, 2, 3, 4], .lagrangeCoset, false, 0, 4, 0⟩ : Poly (ZMod 5))).coset = 2 := by
+  decide
+example : (convertP [] .canonical (⟨3, 2, 3, 2, 3, 2, true⟩ : Domain (ZMod 5)) (⟨[1, 2], .canonical, true, 0, 2, 0⟩ : Poly (ZMod 5))).coeffs
+    = [1, 0, 0, 0, 2, 0, 0, 0] := by decide
+
 /-- **Horner** (both layouts read the natural-order vector): `r ← r·x + c[i]` computes `Σ cⱼ xʲ` -/
 theorem C20_horner (c : List R) (x : R) : horner c x = ∑ j ∈ range c.length, c.getD j 0 * x ^ j := by
   rw [horner_eq, evalAt_eq]
